@@ -321,15 +321,18 @@ class Report:
             "violations": len(viol),
             "notes": self.notes,
         }
-        os.makedirs(os.path.join(VERIF, "evidence"), exist_ok=True)
-        with open(os.path.join(VERIF, "evidence", f"{self.prop}.json"), "w") as f:
+        # VERIF_OUT (optional): write evidence / violation files elsewhere (used by the seeded-change regression, which
+        # must not overwrite the evidence of the real tree)
+        OUT = os.environ.get("VERIF_OUT") or VERIF
+        os.makedirs(os.path.join(OUT, "evidence"), exist_ok=True)
+        with open(os.path.join(OUT, "evidence", f"{self.prop}.json"), "w") as f:
             json.dump(ev, f, indent=1, default=str)
         for fid, fs in hits.items():
             print(f"KNOWN-FINDING: property={self.prop} {known[fid]['what']} [{fid}; {len(fs)} case(s) this run]")
         if viol:
             # one replay file per distinct (clause, suite); first case of each
             seen = set()
-            os.makedirs(os.path.join(VERIF, "violations"), exist_ok=True)
+            os.makedirs(os.path.join(OUT, "violations"), exist_ok=True)
             for f in viol:
                 key = (f["clause"], f["suite"])
                 if key in seen:
@@ -337,7 +340,7 @@ class Report:
                 seen.add(key)
                 blob = json.dumps(f, sort_keys=True, default=str)
                 h = hashlib.sha1(blob.encode()).hexdigest()[:12]
-                path = os.path.join(VERIF, "violations", f"{self.prop}-{h}.json")
+                path = os.path.join(OUT, "violations", f"{self.prop}-{h}.json")
                 with open(path, "w") as fh:
                     json.dump({"property": self.prop, "tier": self.tier, "seed": self.seed, **f,
                                "same_class_count": sum(1 for g in viol if (g["clause"], g["suite"]) == key)},
